@@ -60,18 +60,23 @@ pub struct FlowCfg {
 }
 
 pub fn gen_issuer_key(r: &mut Rng) -> (KeyId, Option<String>) {
-    match r.below(5) {
-        0 => (KeyId::IssuerEc, None),
-        1 | 2 => (KeyId::IssuerEc, Some("ES256".into())),
-        3 => (KeyId::IssuerEd, Some("EdDSA".into())),
-        _ => (KeyId::Hmac1, Some("HS256".into())),
+    match r.below(12) {
+        0 | 1 => (KeyId::IssuerEc, None),
+        2 | 3 | 4 => (KeyId::IssuerEc, Some("ES256".into())),
+        5 | 6 => (KeyId::IssuerEd, Some("EdDSA".into())),
+        7 | 8 => (KeyId::Hmac1, Some("HS256".into())),
+        // the other members of the HMAC family: the signing algorithm has no bearing on how disclosures are hashed
+        9 => (KeyId::Hmac1, Some("HS384".into())),
+        10 => (KeyId::Hmac1, Some("HS512".into())),
+        _ => (KeyId::Hmac2, Some("HS512".into())),
     }
 }
 
 pub fn gen_kb(r: &mut Rng) -> KbSetting {
-    let (key, alg) = match r.below(3) {
+    let (key, alg) = match r.below(4) {
         0 => (KeyId::HolderEc, None),
         1 => (KeyId::HolderEc, Some("ES256".to_string())),
+        2 => (KeyId::HolderEc2, Some("ES256".to_string())),
         _ => (KeyId::HolderEd, Some("EdDSA".to_string())),
     };
     let nonce = if r.chance(1, 2) { format!("nonce-{}", r.next() % 100000) } else { gen_string(r, false) };
